@@ -192,6 +192,7 @@ func (c *codegen) restore(s cgSnap) {
 	c.phase2 = false
 	c.phase3 = false
 	c.phase4 = false
+	c.phase5 = false
 }
 
 // checkReflPrimsSoft is checkReflPrims with a refusal instead of a fatal error.
@@ -243,7 +244,7 @@ func genCodeTopics(p *pkgInfo, repo, codeFile string) (partial bool) {
 	var rootTopics []topic
 	rootTopics = append(rootTopics, codeTopics...)
 	var subPkgs []string
-	for _, t := range topics4 {
+	for _, t := range append(append([]topic{}, topics4...), topics5...) {
 		if t.pkg == "" {
 			rootTopics = append(rootTopics, t)
 		} else {
@@ -288,7 +289,7 @@ func translateTopics(p *pkgInfo, topicsIn []topic, withMisc bool, prefix string,
 		whiteSet: map[fnKey]bool{}, mutates: map[fnKey]bool{}, refl: map[string]*reflInfo{},
 		structSeen: map[string]bool{}, done: map[fnKey]bool{}, busy: map[fnKey]bool{},
 		structPhase: map[string]int{}, sigs: map[fnKey]*fnSig{}, white2Set: map[fnKey]bool{}, white3Set: map[fnKey]bool{}, white4Set: map[fnKey]bool{},
-		opaqueOf: map[fnKey]bool{}}
+		opaqueOf: map[fnKey]bool{}, white5Set: map[fnKey]bool{}}
 	for _, f := range p.files {
 		for _, d := range f.Decls {
 			if gd, ok := d.(*ast.GenDecl); ok && gd.Tok == token.CONST {
@@ -397,6 +398,9 @@ func translateTopics(p *pkgInfo, topicsIn []topic, withMisc bool, prefix string,
 					if !c.white2Set[k] {
 						if part4Topics[t.name] && !c.white3Set[k] {
 							c.white4Set[k] = true
+							if part5Topics[t.name] {
+								c.white5Set[k] = true
+							}
 						}
 						c.white3Set[k] = true
 					}
@@ -462,11 +466,13 @@ func translateTopics(p *pkgInfo, topicsIn []topic, withMisc bool, prefix string,
 			if t.refl {
 				c.checkReflPrimsSoft()
 			}
-			c.phase2, c.phase3, c.phase4 = t.part2, part3Topics[t.name], part4Topics[t.name]
+			c.phase2, c.phase3, c.phase4, c.phase5 = t.part2, part3Topics[t.name], part4Topics[t.name], part5Topics[t.name]
+			c.ptrNonNil = ptrNonNilTopics[t.name]
 			for _, k := range t.fns {
 				c.ensure(k, c.fns[k])
 			}
-			c.phase2, c.phase3, c.phase4 = false, false, false
+			c.phase2, c.phase3, c.phase4, c.phase5 = false, false, false, false
+			c.ptrNonNil = false
 		}
 		res.refused, res.msg = guarded(run)
 		if res.refused {
@@ -565,6 +571,14 @@ func renderTopics(codeFile string, topics []topic, results []*topicOut, fnOwner,
 		sb.WriteString("\nend LZ.Gen\n")
 		write("CodePart4Prelude", sb.String())
 	}
+	{
+		var sb strings.Builder
+		header(&sb, "Fifth prelude of the translation (Decoder, WrappedParser): error variables of the standard library, re-slicing of list-valued slices.", []string{"CodePrelude", "CodeSlicePrelude"})
+		sb.WriteString("namespace LZ.Gen\n\n")
+		sb.WriteString(leanPrelude5())
+		sb.WriteString("\nend LZ.Gen\n")
+		write("CodeIfacePrelude", sb.String())
+	}
 	errVarNames := map[string]bool{}
 	{
 		// every package-level error variable that is a constant, whether a topic uses it or not:
@@ -596,6 +610,7 @@ func renderTopics(codeFile string, topics []topic, results []*topicOut, fnOwner,
 		autoHelper := res.autoHelper
 		leanFnPrefix = c.prefix
 		c.phase4 = part4Topics[res.t.name] // the field types of its structures (int32)
+		c.phase5 = part5Topics[res.t.name] // … (interface types)
 		file := "Code" + res.t.name
 		if res.refused {
 			os.Remove(filepath.Join(dir, file+".lean"))
@@ -612,7 +627,13 @@ func renderTopics(codeFile string, topics []topic, results []*topicOut, fnOwner,
 			for _, s := range res.structs {
 				w("")
 				w("/-- `type %s struct` -/", goStruct(s))
-				w("structure %s where", s)
+				tps := ""
+				if c.phase5 {
+					for _, tp := range c.structTArgs(s) {
+						tps += " (" + tp + " : Type)"
+					}
+				}
+				w("structure %s%s where", s, tps)
 				for _, f := range c.structFields(s, nil) {
 					w("  %s : %s", f.name, f.typ.lean())
 				}
@@ -671,6 +692,9 @@ func renderTopics(codeFile string, topics []topic, results []*topicOut, fnOwner,
 			if part4Topics[res.t.name] {
 				imports = append(imports, "CodePart4Prelude")
 			}
+			if part5Topics[res.t.name] {
+				imports = append(imports, "CodeIfacePrelude")
+			}
 			for _, tok := range identRe.FindAllString(body.String(), -1) {
 				if errVarNames[tok] {
 					imports = append(imports, "CodeErrVars")
@@ -696,7 +720,7 @@ func renderTopics(codeFile string, topics []topic, results []*topicOut, fnOwner,
 	{
 		var sb strings.Builder
 		header(&sb, "Umbrella: imports every topic module that could be translated.",
-			append([]string{"CodePrelude", "CodeSlicePrelude", "CodeGSlicePrelude", "CodePart4Prelude", "CodeErrVars"}, present...))
+			append([]string{"CodePrelude", "CodeSlicePrelude", "CodeGSlicePrelude", "CodePart4Prelude", "CodeIfacePrelude", "CodeErrVars"}, present...))
 		for _, res := range results {
 			if res.refused {
 				fmt.Fprintf(&sb, "-- topic %s REFUSED: %s\n", res.t.name, oneLine(strings.ReplaceAll(res.msg, "extract: ", "")))
@@ -707,7 +731,7 @@ func renderTopics(codeFile string, topics []topic, results []*topicOut, fnOwner,
 		}
 	}
 	// modules of topics that no longer exist (an older topic table) must not linger
-	keep := map[string]bool{"Code.lean": true, "CodeAttr.lean": true, "CodePrelude.lean": true, "CodeSlicePrelude.lean": true, "CodeGSlicePrelude.lean": true, "CodePart4Prelude.lean": true, "CodeErrVars.lean": true}
+	keep := map[string]bool{"Code.lean": true, "CodeAttr.lean": true, "CodePrelude.lean": true, "CodeSlicePrelude.lean": true, "CodeGSlicePrelude.lean": true, "CodePart4Prelude.lean": true, "CodeIfacePrelude.lean": true, "CodeErrVars.lean": true}
 	for _, f := range present {
 		keep[f+".lean"] = true
 	}
@@ -760,7 +784,14 @@ func (c *codegen) helperCallees(k fnKey, known map[fnKey]bool, out *[]fnKey) {
 		switch f := call.Fun.(type) {
 		case *ast.SelectorExpr:
 			if id, ok := f.X.(*ast.Ident); ok && recvVar != "" && id.Name == recvVar && unexported(f.Sel.Name) {
-				add(fnKey{k.recv, f.Sel.Name})
+				h := fnKey{k.recv, f.Sel.Name}
+				if c.fns[h] == nil {
+					// a method promoted from an embedded struct (code_parse.go)
+					if pp := c.promotedMethod(k.recv, f.Sel.Name, call); pp != nil {
+						h = fnKey{pp[len(pp)-1], f.Sel.Name}
+					}
+				}
+				add(h)
 			}
 		case *ast.Ident:
 			if !unexported(f.Name) {
